@@ -122,6 +122,14 @@ inductive Reachable (e : Env) (s0 : St) : St → Prop
   | refl : Reachable e s0 s0
   | step {s s' : St} (ev : Ev) : Reachable e s0 s → step e s ev = some s' → Reachable e s0 s'
 
+/-- the machine's view of a plan of the sequential model -/
+def planPairs (items : List PlanItem) : List (Nat × Nat) := items.map fun it => (it.first, it.last)
+
+/-- the machine environment for an environment and a plan of the sequential model: what the trace
+    validation replays recorded runs in -/
+def envOf (H : Bytes → Bytes) (e : Asm.Env) (items : List PlanItem) : Env :=
+  { H := H, chunks := e.chunks, plan := planPairs items }
+
 /-- run a list of events: `none` as soon as one of them is not enabled.  This is what the trace
     validation does with the events it derives from a recorded run of the real `AssembleFile`
     (driver command `asmconc.accept`). -/
